@@ -3,6 +3,7 @@ From Coq Require Import QArith Qcanon List Bool Arith Lia.
 From QV Require Import CRing Sums Quat Mat QMat.
 From QVM Require Import RankNull.
 From QVT Require Import RankNullThm.
+From B Require Import Gen_C11.
 Import ListNotations.
 Close Scope Q_scope. Close Scope Qc_scope.
 
@@ -16,6 +17,31 @@ Theorem C11_det_zero_iff_singular (s : list Qc) : prodQc s = 0%Qc <-> In 0%Qc s.
 Proof. exact (det_zero_iff_singular s). Qed.
 Theorem C11_det_of_concatenated_spectra (s t : list Qc) : prodQc (s ++ t) = (prodQc s * prodQc t)%Qc.
 Proof. exact (det_multiplicative_on_values s t). Qed.
+(* --- the definitions regenerated from utils.py (rank, quat_null_space, det) as functions of the oracle's singular values --- *)
+Theorem C11_gen_rank_explicit_tolerance eps m n s t : gen_rank eps m n s (Some t) = count_above t s.
+Proof. reflexivity. Qed.
+Theorem C11_gen_rank_default_tolerance eps m n s : s <> [] ->
+  gen_rank eps m n s None = count_above (Qcmult (Qcmult eps (ofnatQc (Nat.max m n))) (npmax s)) s.
+Proof. intros Hs. destruct s as [|a s]; [contradiction|]. reflexivity. Qed.
+Theorem C11_gen_rank_at_most_number_of_values eps m n s tol : gen_rank eps m n s tol <= length s.
+Proof. unfold gen_rank. apply count_le. Qed.
+(* the returned null-space basis is made of the columns rank .. dim-1 of V (right) / U (left), rank = #{s_i > rtol s_0} *)
+Theorem C11_gen_null_right_columns m n s rtol : gen_null_right m n s rtol = null_cols n (null_rank rtol s).
+Proof.
+  unfold gen_null_right, null_cols, null_rank. destruct s as [|a s]; cbn [length Nat.eqb hd].
+  - destruct n; reflexivity.
+  - destruct (Nat.eqb_spec (count_above (Qcmult rtol a) (a :: s)) n) as [E|]; [|reflexivity]. rewrite E, Nat.sub_diag. reflexivity.
+Qed.
+Theorem C11_gen_null_left_columns m n s rtol : gen_null_left m n s rtol = null_cols m (null_rank rtol s).
+Proof.
+  unfold gen_null_left, null_cols, null_rank. destruct s as [|a s]; cbn [length Nat.eqb hd].
+  - destruct m; reflexivity.
+  - destruct (Nat.eqb_spec (count_above (Qcmult rtol a) (a :: s)) m) as [E|]; [|reflexivity]. rewrite E, Nat.sub_diag. reflexivity.
+Qed.
+Theorem C11_gen_null_right_size m n s rtol : null_rank rtol s <= n -> length (gen_null_right m n s rtol) = n - null_rank rtol s.
+Proof. intros H. rewrite C11_gen_null_right_columns. now apply null_shape. Qed.
+Theorem C11_gen_det_is_product s : gen_det_dieudonne s = prodQc s /\ gen_det_dieudonne_accent s = prodQc s /\ gen_det_moore s = prodQc s.
+Proof. repeat split. Qed.
 Section Ann.
 Variable C : CRing.
 Variables (m n : nat) (A U V : qmat C) (s : nat -> quat C).
@@ -27,5 +53,7 @@ Theorem C11_null_annihilated j i : i < m -> j < n -> qmm n A V i j = qmul (U i j
 Proof. exact (null_column_image C m n A U V s HV HA j i). Qed.
 End Ann.
 Print Assumptions C11_rank_quarter_of_real_rank.
+Print Assumptions C11_gen_null_right_columns.
+Print Assumptions C11_gen_rank_default_tolerance.
 Print Assumptions C11_det_zero_iff_singular.
 Print Assumptions C11_null_annihilated.
